@@ -676,6 +676,43 @@ func main() {
 				die("crash of run %d reproduced with a different class (%s vs %s)", v.Index, c2, v.Class)
 			}
 			_ = k2
+			// recover the tape of the crashing run through the memory-mapped mirror,
+			// then minimise it at process level (each attempt is a fresh worker)
+			if res.crashed && os.Getenv("VERIF_NO_SHRINK") == "" {
+				if tp := recoverTape(rpath); tp != nil {
+					rf.Tape = tp
+					classify := func(c []uint32) (string, string) {
+						cand := rf
+						cand.Tape = c
+						tmp := filepath.Join(workDir, "cand.json")
+						writeJSON(tmp, cand)
+						r2, crashed, exit, stderr := runReplay(tmp, false, 0)
+						if crashed {
+							cc, kk, _ := crashClass(exit, stderr)
+							return cc, kk
+						}
+						if r2 != nil {
+							return r2.Class, r2.Key
+						}
+						return "", ""
+					}
+					if cc, kk := classify(tp); cc == v.Class && kk == v.Key {
+						deadline := time.Now().Add(45 * time.Second)
+						min := minimiseProc(tp, 120, func(c []uint32) bool {
+							if time.Now().After(deadline) {
+								return false
+							}
+							cc, kk := classify(c)
+							return cc == v.Class && kk == v.Key
+						})
+						rf.Tape = min
+						rf.Note = fmt.Sprintf("worker process died during this run (%s); tape recovered through a memory-mapped mirror and minimised at process level from %d draws to %d", v.Class, len(tp), len(min))
+						writeJSON(rpath, rf)
+					} else {
+						rf.Tape = nil
+					}
+				}
+			}
 		} else {
 			writeJSON(rpath, rf)
 			// confirm in a fresh process
@@ -803,6 +840,81 @@ func main() {
 	if agg.Runs == 0 {
 		die("no runs executed")
 	}
+}
+
+// recoverTape re-executes a crashing run with the tape mirrored into a
+// memory-mapped file and returns the draws made up to the crash.
+func recoverTape(rpath string) []uint32 {
+	mm := filepath.Join(workDir, "tape.mmap")
+	os.Remove(mm)
+	cmd := exec.Command(workerBin, "-prop", propID, "-replay", rpath, "-tapemap", mm, "-watchdog", fmt.Sprint(wdSecs))
+	cmd.Env = workerEnv()
+	cmd.Run()
+	b, err := os.ReadFile(mm)
+	os.Remove(mm)
+	if err != nil || len(b) < 4 {
+		return nil
+	}
+	n := int(binary.LittleEndian.Uint32(b))
+	if n <= 0 || 4+4*n > len(b) {
+		return nil
+	}
+	tp := make([]uint32, n)
+	for i := range tp {
+		tp[i] = binary.LittleEndian.Uint32(b[4+4*i:])
+	}
+	return tp
+}
+
+// minimiseProc is the tape minimiser with an out-of-process predicate.
+func minimiseProc(tp []uint32, budget int, ok func([]uint32) bool) []uint32 {
+	cur := append([]uint32(nil), tp...)
+	try := func(c []uint32) bool {
+		if budget <= 0 {
+			return false
+		}
+		budget--
+		if ok(c) {
+			cur = append(cur[:0:0], c...)
+			return true
+		}
+		return false
+	}
+	for n := len(cur) / 2; n >= 1 && budget > 0; n /= 2 {
+		for len(cur) > n && try(cur[:len(cur)-n]) {
+		}
+	}
+	for size := len(cur) / 2; size >= 4 && budget > 0; size /= 2 {
+		for i := 0; i+size <= len(cur) && budget > 0; {
+			c := append(append([]uint32(nil), cur[:i]...), cur[i+size:]...)
+			if !try(c) {
+				i += size
+			}
+		}
+	}
+	for size := 64; size >= 8 && budget > 0; size /= 2 {
+		for i := 0; i+size <= len(cur) && budget > 0; i += size {
+			zero := true
+			for _, v := range cur[i : i+size] {
+				if v != 0 {
+					zero = false
+				}
+			}
+			if zero {
+				continue
+			}
+			c := append([]uint32(nil), cur...)
+			for j := i; j < i+size; j++ {
+				c[j] = 0
+			}
+			try(c)
+		}
+	}
+	n := len(cur)
+	for n > 0 && cur[n-1] == 0 {
+		n--
+	}
+	return cur[:n]
 }
 
 func firstLines(s string, n int) string {
